@@ -223,7 +223,87 @@ theorem distribute_fail_keeps_pools {W U : Nat} {m m' : Market}
   repeat' split at h
   all_goals first | (cases h; rfl) | cases h
 
+/-- **the clock is reset even when nothing can be distributed** (pool at or below its floor, or a
+zero rate): the action still moves the distribution clock to `now`, so time spent at the floor is
+never distributed later, after the pool has been refilled. -/
+theorem distribute_at_floor {W U : Nat} (m : Market)
+    (h : m.cfg.distributeFactor = 0 ∨ m.positionImpact.long ≤ m.cfg.minPositionImpactPool) :
+    distributePositionImpact W U m =
+      ({ m with clockImpactDist := some m.now },
+       some ⟨passedInSeconds m.now m.clockImpactDist, 0, m.positionImpact.long⟩) := by
+  unfold distributePositionImpact Market.pendingDistribution
+  simp only
+  rw [dist_zero_cases h]
+  simp
+
+/-- a distribution clock AHEAD of `now` reads as zero elapsed seconds (saturating subtraction, as in
+the Rust) and the action moves it BACK to `now`. -/
+theorem distribute_clock_ahead {W U : Nat} {m m' : Market} {r : DistReport} {c : Nat}
+    (hc : m.clockImpactDist = some c) (hle : m.now ≤ c)
+    (h : distributePositionImpact W U m = (m', some r)) :
+    r.duration = 0 ∧ r.distributed = 0 ∧ m'.positionImpact.long = m.positionImpact.long ∧
+    m'.clockImpactDist = some m.now := by
+  obtain ⟨h1, h2, h3, h4, h5⟩ := distribute_spec h
+  have hd : r.duration = 0 := by
+    rw [h1]; exact (passedInSeconds_eq_zero_iff _ _).2 (Or.inr ⟨c, hc, hle⟩)
+  have h0 : r.distributed = 0 := by
+    rw [h2, hd]; unfold distSpec; simp
+  refine ⟨hd, h0, by rw [h4, h3, h0]; simp, by rw [h5]⟩
+
 /-! ### Non-vacuity -/
+
+/-- observable summary of the action: `[1, duration, distributed, next, pool long, pool short, clock, now]`
+on success, `[0, pool long, clock]` on failure. -/
+def obsD (x : Market × Option DistReport) : List Nat :=
+  match x with
+  | (m', some r) => [1, r.duration, r.distributed, r.next, m'.positionImpact.long, m'.positionImpact.short,
+                     m'.clockImpactDist.getD 0, m'.now]
+  | (m', none) => [0, m'.positionImpact.long, m'.clockImpactDist.getD 0]
+
+/-- sample market (`TestMarketConfig::default()` for `<u64, 9>`: rate 1 token/s, floor 10⁹): pool 5
+above the floor, 7 s since the last distribution. -/
+def mS : Market :=
+  { Market.ofConfig MarketConfig.test64 with positionImpact := ⟨1000000005, 3⟩, now := 100, clockImpactDist := some 93 }
+
+/-- `distribute_spec` on a concrete market: 7 s × 1/s = 7, capped at the excess 5 → next = floor,
+clock reset to `now`, the short amount of the pool untouched. -/
+example : obsD (distributePositionImpact 64 1000000000 mS) = [1, 7, 5, 1000000000, 1000000000, 3, 100, 100] := by
+  decide +kernel
+example (m' : Market) (r : DistReport) (h : distributePositionImpact 64 1000000000 mS = (m', some r)) :
+    m'.positionImpact.long = r.next := (distribute_spec h).2.2.2.1
+
+/-- run `tick t; distribute` for each `t` and collect the observations. -/
+def histD (W U : Nat) (m : Market) : List Nat → List (List Nat)
+  | [] => []
+  | t :: ts => let x := distributePositionImpact W U (m.tick t); obsD x :: histD W U x.1 ts
+
+/-- a multi-step history: the first distribution takes the pool to its floor; the next four run AT the
+floor — nothing is distributed but the clock follows `now` every time (100, 102, 107, 117, 118). -/
+example : histD 64 1000000000 mS [0, 2, 5, 10, 1] =
+    [[1, 7, 5, 1000000000, 1000000000, 3, 100, 100], [1, 2, 0, 1000000000, 1000000000, 3, 102, 102],
+     [1, 5, 0, 1000000000, 1000000000, 3, 107, 107], [1, 10, 0, 1000000000, 1000000000, 3, 117, 117],
+     [1, 1, 0, 1000000000, 1000000000, 3, 118, 118]] := by decide +kernel
+
+/-- …so that after the pool is refilled (positions pay 1 000 of impact at t = 118) a distribution 2 s
+later distributes 2 s worth — not the 20 s the pool had spent at the floor (the "skip the clock update
+at the floor" class of changes). -/
+example :
+    (let m1 := (distributePositionImpact 64 1000000000 (mS.tick 18)).1        -- at the floor, t = 118
+     let m2 := { m1 with positionImpact := ⟨1000001000, 3⟩ }                   -- refilled
+     obsD (distributePositionImpact 64 1000000000 (m2.tick 2)))
+    = [1, 2, 2, 1000000998, 1000000998, 3, 120, 120] := by decide +kernel
+
+/-- a clock ahead of `now` (5000 > 100): zero seconds, nothing distributed, clock moved back to 100. -/
+example : obsD (distributePositionImpact 64 1000000000 { mS with clockImpactDist := some 5000 })
+    = [1, 0, 0, 1000000005, 1000000005, 3, 100, 100] := by decide +kernel
+
+/-- `distribute_fail_keeps_pools`: rate × time does not fit the number type — the action fails, the
+pool is kept, the clock has nevertheless been reset (the action is not atomic). -/
+example : obsD (distributePositionImpact 64 1000000000
+      { mS with cfg := { MarketConfig.test64 with distributeFactor := 18446744073709551615 },
+                now := 18446744073709551615, clockImpactDist := some 0, positionImpact := ⟨5000000000, 0⟩ })
+    = [0, 5000000000, 18446744073709551615] := by decide +kernel
+
 example : pendingDistribution 64 (10 ^ 9) 5000000000 1000000000 (10 ^ 9) 7 = some (7, 4999999993) := by decide
 example : pendingDistribution 64 (10 ^ 9) 1000000005 1000000000 (10 ^ 9) 7 = some (5, 1000000000) := by decide
 example : pendingDistribution 64 (10 ^ 9) 999 1000000000 (10 ^ 9) 7 = some (0, 999) := by decide
